@@ -19,6 +19,7 @@ func init() { register("C20", checkC20) }
 func checkC20(c *Ctx) {
 	c20FirstStartCrash(c)
 	c20RestructureCrash(c)
+	c20ConcurrentUnpair(c)
 	c18RelativePath(c)
 	c20HashPrecision(c)
 	c.SetRule("streams: pin (ValidatePin on structured + random strings; non-trivial = 8 bytes long or a trivial code), " +
